@@ -17,6 +17,11 @@ Refutations
  (e) `problem.fitness(x)` (corners of the box, interior points) after which the log does not show the
      oracle's mapping of x; `get_bounds()` != the oracle's box;
  (f) the re-simulation of the last champions (`/simulated/pixel`) applying other values than the reported ones.
+
+Histories: the configuration objects (the Calibration, or the ParameterValues shared by two Calibrations) are not
+always fresh -- a random share of the cases uses them once or twice before (a problem built from them and asked
+for its box, or a complete calibration run, as when a notebook cell is executed again); every use is a calibration
+in its own right and is judged by the same refutations against the boundaries that were *declared*.
 """
 from __future__ import annotations
 
@@ -39,7 +44,9 @@ RULE = ("random calibration layouts: 1-4 calibrated parameters drawn in any orde
         "per-component boundaries, optimum inside or beyond the box; run by the real Calibration with sade / sga / "
         "seven derivative-free nlopt solvers, tiny populations, pygmo seeds, 1-3 islands, 1-3 evolutions, three "
         "topologies, with and without best individuals, one or two processors (result_input_arguments), re-simulation "
-        "of the champions; plus direct problem.fitness(x) on box corners and interior "
+        "of the champions; configuration objects fresh or already used (0-2 earlier problems built / calibrations run "
+        "from the same Calibration, or from another Calibration sharing the ParameterValues); plus direct "
+        "problem.fitness(x) on box corners and interior "
         "points of ModelFittingDataTree problems (bare and wrapped in pygmo.problem); non-trivial = >=2 parameters "
         "or a vector parameter; distinct = distinct (kind, parameter layout with boundaries, algorithm) signatures")
 ASSUMPTIONS = [
@@ -55,6 +62,7 @@ REQUIRED_COUNTERS = [
     "resimulations_checked", "layouts_vector_before_scalar", "layouts_log_after_vector", "layouts_per_component_bounds",
     "layouts_logarithmic", "layouts_detector_field", "layouts_keys_not_sorted", "algo_sade", "algo_sga", "algo_nlopt",
     "multi_island_runs", "multi_evolution_runs", "two_processor_runs", "direct_two_processor_calls",
+    "reused_configuration_runs", "reused_configuration_problems", "reused_log_per_component_layouts",
 ]
 TIMEOUT = {"quick": 900, "thorough": 3600}
 LEVEL_TEXT = ("Exploration by runtime monitoring: every generated calibration is executed by the real Calibration / "
@@ -343,7 +351,21 @@ def gen_case(rng, kind: str, tier: str, force: str | None = None) -> dict:
     if all(p["slot"] != "c" for p in params) and rng.random() < 0.3:
         # two processors (result_input_arguments), one target each: every candidate is applied to both
         case["input_c"] = [_r(rng, -5.0, 5.0), _r(rng, 6.0, 50.0)]
+    case["history"] = gen_history(rng, kind)
     return case
+
+
+def gen_history(rng, kind: str) -> list:
+    """Earlier uses of the configuration objects before the judged use: [] (fresh objects) or 1-2 of
+    {"use": "problem" | "run", "share": "calibration" | "parameters"}.  "problem": a fitting problem is built from
+    them and asked for its box; "run": a complete calibration; "share" = what the following use has in common with
+    this one: "calibration": the same Calibration, detector and pipeline objects, "parameters": another Calibration
+    object (and a new detector and pipeline) built around the same ParameterValues objects."""
+    if rng.random() < 0.55:
+        return []
+    uses = ["problem", "problem", "run"] if kind == "cal" else ["problem"]
+    return [{"use": rng.choice(uses), "share": rng.choice(["calibration", "calibration", "parameters"])}
+            for _ in range(rng.choice([1, 1, 2]))]
 
 
 def newuoa_case(rng) -> dict:
@@ -358,7 +380,7 @@ def newuoa_case(rng) -> dict:
             "algo": {"type": "nlopt", "generations": 1, "population_size": rng.randint(1, 3), "nlopt_solver": "newuoa",
                      "maxeval": 80, "xtol_rel": 1e-8},
             "pygmo_seed": rng.randint(0, 100000), "pipeline_seed": None, "islands": 1, "evolutions": 1, "best": None,
-            "topology": "unconnected", "inherited": True, "resimulate": False, "input_c": None}
+            "topology": "unconnected", "inherited": True, "resimulate": False, "input_c": None, "history": []}
 
 
 def cobyla_case(rng) -> dict:
@@ -376,7 +398,7 @@ def cobyla_case(rng) -> dict:
             "algo": {"type": "nlopt", "generations": 1, "population_size": 1, "nlopt_solver": "cobyla", "maxeval": 28,
                      "xtol_rel": 1e-8, "replacement": "random", "nlopt_selection": "random"},
             "pygmo_seed": rng.randint(0, 100000), "pipeline_seed": None, "islands": rng.randint(1, 3), "evolutions": 3,
-            "best": None, "topology": "unconnected", "inherited": True, "resimulate": False, "input_c": None}
+            "best": None, "topology": "unconnected", "inherited": True, "resimulate": False, "input_c": None, "history": []}
 
 
 # ------------------------------------------------------------------ building the real objects
@@ -409,10 +431,8 @@ def write_target(rec, case: dict, tag: str) -> list:
     return paths
 
 
-def make_objects(rec, case: dict, tag: str):
-    from pyxel.calibration import Algorithm, Calibration
+def make_parameter_values(case: dict) -> list:
     from pyxel.observation import ParameterValues
-    from pyxel.pipelines import FitnessFunction
 
     pv = []
     for p in case["params"]:
@@ -420,6 +440,15 @@ def make_objects(rec, case: dict, tag: str):
         boundaries = [tuple(x) for x in b] if isinstance(b[0], (list, tuple)) else tuple(b)
         pv.append(ParameterValues(key=p["key"], values=["_"] * p["n"] if p["n"] else "_",
                                   logarithmic=p["log"], boundaries=boundaries))
+    return pv
+
+
+def make_calibration(rec, case: dict, tag: str, pv: list):
+    """A Calibration around the ParameterValues objects `pv` (fresh ones, or those of an earlier Calibration)."""
+    from pyxel.calibration import Algorithm, Calibration
+    from pyxel.observation import ParameterValues
+    from pyxel.pipelines import FitnessFunction
+
     fit = ["sum_of_abs_residuals", "sum_of_squared_residuals"][case["pygmo_seed"] % 2]
     extra = {}
     if case.get("input_c"):
@@ -432,12 +461,63 @@ def make_objects(rec, case: dict, tag: str):
         result_type="pixel", result_fit_range=(0, ROWS, 0, COLS), target_fit_range=(0, ROWS, 0, COLS),
         pygmo_seed=case["pygmo_seed"], pipeline_seed=case["pipeline_seed"], num_islands=case["islands"],
         num_evolutions=case["evolutions"], num_best_decisions=case["best"], topology=case["topology"], **extra)
+    return cal
+
+
+def make_processor_parts(case: dict):
     args = {"a": DEFAULTS["a"], "b": DEFAULTS["b"], "c": DEFAULTS["c"],
             "v": list(DEFAULTS["v"][:case["n_v"]]), "w": list(DEFAULTS["w"][:case["n_w"]])}
     pipeline = build.make_pipeline({case["group"]: [{"name": case["model"], "func": "vf.checks.c10.probe",
                                                      "arguments": args}]})
     detector = build.make_detector(build.default_detector_spec("ccd", ROWS, COLS))
+    return detector, pipeline
+
+
+def make_objects(rec, case: dict, tag: str):
+    cal = make_calibration(rec, case, tag, make_parameter_values(case))
+    detector, pipeline = make_processor_parts(case)
     return cal, detector, pipeline
+
+
+def build_problem(cal, detector, pipeline, inherited: bool):
+    """A fitting problem built the way Calibration.run_calibration builds it."""
+    from pyxel.calibration import FitRange3D, to_fit_range
+    from pyxel.calibration.fitting_datatree import ModelFittingDataTree
+    from pyxel.pipelines import Processor
+
+    return ModelFittingDataTree(
+        processor=Processor(detector=detector, pipeline=pipeline), variables=cal.parameters, readout=cal.readout,
+        simulation_output=cal.result_type, generations=cal.algorithm.generations,
+        population_size=cal.algorithm.population_size, fitness_func=cal.fitness_function, file_path=None,
+        target_filenames=cal.target_data_path, target_fit_range=to_fit_range(cal.target_fit_range),
+        out_fit_range=FitRange3D.from_sequence(cal.result_fit_range),
+        input_arguments=cal.result_input_arguments, weights=cal.weights, weights_from_file=cal.weights_from_file,
+        pipeline_seed=cal.pipeline_seed, with_inherited_coords=inherited)
+
+
+def check_box(rec, case: dict, problem, index, used_before: int) -> bool:
+    """get_bounds() of a problem == the oracle's box of the declared boundaries."""
+    params = case["params"]
+    lower, upper = oracle_box(params)
+    dim = len(lower)
+    got_lower, got_upper = problem.get_bounds()
+    got_lower, got_upper = _flat(got_lower), _flat(got_upper)
+    rec.count("bounds_vectors_checked")
+    hist = ":configuration-used-before" if used_before else ""
+    if len(got_lower) != dim or len(got_upper) != dim:
+        rec.violation("C10:bounds-vector-wrong:length" + hist,
+                      f"get_bounds() has {len(got_lower)}/{len(got_upper)} components, the layout has {dim}", case, index)
+        return False
+    for comp in range(dim):
+        if not (close_abs(got_lower[comp], lower[comp]) and close_abs(got_upper[comp], upper[comp])):
+            j = param_of_component(params, comp)
+            rec.violation("C10:bounds-vector-wrong:" + layout_class(params, j) + hist,
+                          f"get_bounds() component {comp}: ({got_lower[comp]!r}, {got_upper[comp]!r}), declared "
+                          f"({lower[comp]!r}, {upper[comp]!r}) for {params[j]['key']}; lower={got_lower} upper={got_upper}"
+                          + (f"; the configuration objects were used {used_before} time(s) before" if used_before else ""),
+                          case, index)
+            return False
+    return True
 
 
 def count_layout(rec, case: dict) -> bool:
@@ -483,9 +563,10 @@ def mech(case: dict, what: str, cls: str | None = None) -> str:
     """Mechanism key.  Candidates outside the box (and the run failures they cause) that occur under an NLopt
     solver are keyed by the solver: on a correct mapping (checked for every algorithm by (c), (d), (e)) only the
     solver itself can produce them (newuoa ignores the box, cobyla evaluates an uninitialised vector)."""
+    hist = ":configuration-used-before" if case.get("used_before") else ""  # input class: not the first use
     if case["algo"]["type"] == "nlopt" and ("outside" in what or what == "run-failed"):
-        return f"C10:nlopt-{case['algo'].get('nlopt_solver')}:{what}"
-    return f"C10:{what}" + (f":{cls}" if cls else "")
+        return f"C10:nlopt-{case['algo'].get('nlopt_solver')}:{what}{hist}"
+    return f"C10:{what}" + (f":{cls}" if cls else "") + hist
 
 
 def check_entry(rec, case: dict, entry: dict, per_param: list | None, what: str, index) -> bool:
@@ -675,21 +756,80 @@ def check_resimulation(rec, case: dict, tree, index) -> None:
 
 
 # ------------------------------------------------------------------ cases
+def uses_of(case: dict, final: str) -> list:
+    """The uses of the configuration objects of one case, the judged one last: [(use, share with the previous)]."""
+    history = case.get("history") or []
+    return [(h["use"], history[k - 1]["share"] if k else None) for k, h in enumerate(history)] + \
+           [(final, history[-1]["share"] if history else None)]
+
+
+def count_history(rec, case: dict, step: int, use: str) -> None:
+    if not step:
+        return
+    rec.count("reused_configuration_runs" if use == "run" else "reused_configuration_problems")
+    rec.observe("histories", "+".join(f"{h['use']}/{h['share']}" for h in case["history"][:step]) + "+" + use)
+    if any(p["n"] and p["log"] and isinstance(p["bounds"][0], (list, tuple)) for p in case["params"]):
+        rec.count("reused_log_per_component_layouts")
+    if any(p["log"] for p in case["params"]):
+        rec.count("reused_logarithmic_layouts")
+
+
 def run_calibration_case(rec, index, case: dict) -> None:
+    nontrivial = count_layout(rec, case)
+    try:
+        pv = make_parameter_values(case)
+        cal = make_calibration(rec, case, f"cal{index}", pv)
+        detector, pipeline = make_processor_parts(case)
+    except Exception as exc:  # noqa: BLE001
+        import traceback
+        rec.violation(mech(case, "run-failed", case["algo"]["type"]),
+                      f"building the configuration: {type(exc).__name__}: {exc} :: {traceback.format_exc()[-900:]}",
+                      case, index)
+        rec.case(signature(case), nontrivial)
+        return
+    completed = True
+    for step, (use, share) in enumerate(uses_of(case, "run")):
+        jcase = dict(case, used_before=step) if step else case
+        try:
+            if share == "parameters":  # "several calibrations launched from one loaded configuration"
+                cal = make_calibration(rec, case, f"cal{index}_{step}", pv)
+                detector, pipeline = make_processor_parts(case)
+            if use == "problem":
+                problem = build_problem(cal, detector, pipeline, case["inherited"])
+                check_box(rec, jcase, problem, index, step)
+                count_history(rec, case, step, use)
+                continue
+        except Exception as exc:  # noqa: BLE001
+            import traceback
+            rec.violation("C10:direct:problem-construction-failed" + (":configuration-used-before" if step else ""),
+                          f"use {step}: {type(exc).__name__}: {exc} :: {traceback.format_exc()[-900:]}", jcase, index)
+            completed = False
+            break
+        if not one_calibration_run(rec, index, jcase, cal, detector, pipeline):
+            completed = False
+            break
+        count_history(rec, case, step, use)
+    if completed:
+        rec.case(signature(case), nontrivial,
+                 sample={k: case[k] for k in ("params", "algo", "islands", "evolutions", "best", "history")})
+    else:
+        rec.case(signature(case), nontrivial)
+
+
+def one_calibration_run(rec, index, case: dict, cal, detector, pipeline) -> bool:
+    """One complete calibration by pyxel.run_mode, judged by (a)-(d), (f).  False: the run did not complete."""
     import pyxel
 
-    nontrivial = count_layout(rec, case)
     algo = case["algo"]
     label = algo["type"] + (":" + algo["nlopt_solver"] if algo["type"] == "nlopt" else "")
     try:
-        cal, detector, pipeline = make_objects(rec, case, f"cal{index}")
         log_reset()
         tree = pyxel.run_mode(mode=cal, detector=detector, pipeline=pipeline, with_inherited_coords=case["inherited"])
     except Exception as exc:  # noqa: BLE001
         import traceback
         log = log_snapshot()
         clean = all(check_entry(rec, case, e, None, "candidate of a failed run", index) for e in log)
-        if algo["type"] == "nlopt" and not is_newuoa(case) and clean:
+        if algo["type"] == "nlopt" and not is_newuoa(case) and clean and log:
             # NLopt solvers may end an evolution on a point that pygmo refuses as the next initial guess
             # (bobyqa overshoots a boundary by one ulp): a refusal of the library, nothing was applied outside the box
             rec.count("refused_nlopt_runs")
@@ -698,8 +838,7 @@ def run_calibration_case(rec, index, case: dict) -> None:
             rec.violation(mech(case, "run-failed", algo["type"]),
                           f"{type(exc).__name__}: {exc} :: {traceback.format_exc()[-900:]}", case, index)
         rec.count("logged_evaluations", len(log))
-        rec.case(signature(case), nontrivial)
-        return
+        return False
     log = log_snapshot()
     rec.count("calibrations")
     rec.count(f"algo_{algo['type']}")
@@ -723,54 +862,39 @@ def run_calibration_case(rec, index, case: dict) -> None:
     check_reported(rec, case, tree, log, index)
     if case["resimulate"]:
         check_resimulation(rec, case, tree, index)
-    rec.case(signature(case), nontrivial, sample={k: case[k] for k in ("params", "algo", "islands", "evolutions", "best")})
+    return True
 
 
 def run_direct_case(rec, index, case: dict, tier: str, rng) -> None:
     """(e) problem.fitness(x) for chosen x, on a problem built the way Calibration.run_calibration builds it."""
-    from pyxel.calibration import FitRange3D, to_fit_range
-    from pyxel.calibration.fitting_datatree import ModelFittingDataTree
-    from pyxel.pipelines import Processor
-
     params = case["params"]
     nontrivial = count_layout(rec, case)
     lower, upper = oracle_box(params)
     dim = len(lower)
+    bounds_ok = True
+    step = 0
     try:
-        cal, detector, pipeline = make_objects(rec, case, f"dir{index}")
-        problem = ModelFittingDataTree(
-            processor=Processor(detector=detector, pipeline=pipeline), variables=cal.parameters, readout=cal.readout,
-            simulation_output=cal.result_type, generations=cal.algorithm.generations,
-            population_size=cal.algorithm.population_size, fitness_func=cal.fitness_function, file_path=None,
-            target_filenames=cal.target_data_path, target_fit_range=to_fit_range(cal.target_fit_range),
-            out_fit_range=FitRange3D.from_sequence(cal.result_fit_range),
-            input_arguments=cal.result_input_arguments, weights=cal.weights, weights_from_file=cal.weights_from_file,
-            pipeline_seed=cal.pipeline_seed, with_inherited_coords=case["inherited"])
-        got_lower, got_upper = problem.get_bounds()
-        got_lower, got_upper = _flat(got_lower), _flat(got_upper)
+        # every problem built from the configuration objects (fresh, then used before) must have the declared box;
+        # the decision vectors below are evaluated on the last one
+        pv = make_parameter_values(case)
+        cal = make_calibration(rec, case, f"dir{index}", pv)
+        detector, pipeline = make_processor_parts(case)
+        for step, (use, share) in enumerate(uses_of(case, "problem")):
+            if share == "parameters":
+                cal = make_calibration(rec, case, f"dir{index}_{step}", pv)
+                detector, pipeline = make_processor_parts(case)
+            problem = build_problem(cal, detector, pipeline, case["inherited"])
+            bounds_ok = check_box(rec, dict(case, used_before=step) if step else case, problem, index, step) and bounds_ok
+            count_history(rec, case, step, use)
     except Exception as exc:  # noqa: BLE001
         import traceback
-        rec.violation("C10:direct:problem-construction-failed",
-                      f"{type(exc).__name__}: {exc} :: {traceback.format_exc()[-900:]}", case, index)
+        rec.violation("C10:direct:problem-construction-failed" + (":configuration-used-before" if step else ""),
+                      f"use {step}: {type(exc).__name__}: {exc} :: {traceback.format_exc()[-900:]}", case, index)
         rec.case(signature(case), nontrivial)
         return
     rec.count("direct_problems")
-    rec.count("bounds_vectors_checked")
-    bounds_ok = True
-    if len(got_lower) != dim or len(got_upper) != dim:
-        rec.violation("C10:bounds-vector-wrong:length",
-                      f"get_bounds() has {len(got_lower)}/{len(got_upper)} components, the layout has {dim}", case, index)
-        bounds_ok = False
-    else:
-        for comp in range(dim):
-            if not (close_abs(got_lower[comp], lower[comp]) and close_abs(got_upper[comp], upper[comp])):
-                j = param_of_component(params, comp)
-                rec.violation("C10:bounds-vector-wrong:" + layout_class(params, j),
-                              f"get_bounds() component {comp}: ({got_lower[comp]!r}, {got_upper[comp]!r}), declared "
-                              f"({lower[comp]!r}, {upper[comp]!r}) for {params[j]['key']}; lower={got_lower} upper={got_upper}",
-                              case, index)
-                bounds_ok = False
-                break
+    if step:
+        case = dict(case, used_before=step)
     # decision vectors: every corner (dimension <= 4) or a sample of corners, plus interior points
     if dim <= 4:
         corners = [list(c) for c in itertools.product(*zip(lower, upper))]
